@@ -289,23 +289,42 @@ def run(ctx):
     clos = [fn for fn in w.all_fns() if fn["path"].startswith(SR + "get_auth_chain_diff::{closure") and "body" in fn]
     # accepted shapes: filter_map(|(id, count)| (count < n).then_some(id))  /  filter(|(_, count)| *count < n).map(|(id, _)| id)
     select = pred = proj = False
+    caps = set()
     for cf in clos:
         dx = D.Dex(w.lookup, adt_discr=w.adt_discr, ctors=w.ctors)
         ps = dx.paths(cf, [D.sym("env"), ("tup", (D.sym("id"), D.sym("count")))])
         for p in ps:
             for a, t in p.conds:
-                if a[0] == "cmp" and D.show(a[2]) == "count" and "num_sets" in D.show(a[3]) and t and D.show(p.ret) == "Option::Some(id)":
+                m_ = re.fullmatch(r"env\.(?:_ref__)?(\w+)", D.show(a[3])) if a[0] == "cmp" else None
+                if m_ and D.show(a[2]) == "count" and t and D.show(p.ret) == "Option::Some(id)":
                     select = True
+                    caps.add(m_.group(1))
             r = D.show(p.ret).replace(" ", "")
-            if not p.conds and r in ("bool::then_some(count<env.num_sets,id)",):
+            m_ = re.fullmatch(r"bool::then_some\(count<env\.(?:_ref__)?(\w+),id\)", r)
+            if not p.conds and m_:
                 select = True
-            if not p.conds and len(ps) == 1 and r in ("count<env.num_sets", "count<env._ref__num_sets"):
+                caps.add(m_.group(1))
+            m_ = re.fullmatch(r"count<env\.(?:_ref__)?(\w+)", r)
+            if not p.conds and len(ps) == 1 and m_:
                 pred = True
+                caps.add(m_.group(1))
             if not p.conds and len(ps) == 1 and r == "id":
                 proj = True
     gf = w.fn(SR + "get_auth_chain_diff")
     adaptors = {M.callee_name(c).rsplit("::", 1)[-1] for _, c in M.calls(gf["body"])}
-    okd = (select and "filter_map" in adaptors) or (pred and proj and {"filter", "map"} <= adaptors)
+    # the captured bound, whatever it is called, is the number of auth chain sets: a local of get_auth_chain_diff assigned from `len` of the argument
+    names_ = gf["body"].get("names") or {}
+    defs_ = PC.roots(gf["body"])
+    def is_set_count(name):
+        for k_, v_ in names_.items():
+            if v_ == name:
+                d_ = defs_.get(int(k_))
+                if d_ is not None and d_[0] == "call" and M.callee_name(d_[1]).rsplit("::", 1)[-1] == "len" and d_[1]["args"] and \
+                   json.dumps(PC.expr(gf["body"], defs_, d_[1]["args"][0])).count('["arg", 1]') == 1:
+                    return True
+        return False
+    bound_ok = len(caps) == 1 and is_set_count(next(iter(caps)))
+    okd = bound_ok and ((select and "filter_map" in adaptors) or (pred and proj and {"filter", "map"} <= adaptors))
     auth_diff_operand(ctx, w, "C07.sets", "C07.sets:auth-diff-operand")
     ctx.check(okd, "C07.sets", "C07.sets:auth-diff", w.where(w.fn(SR + "get_auth_chain_diff")), bad_msg="auth difference is not `count < num_sets`")
     f = w.fn(SR + "separate")
